@@ -174,6 +174,7 @@ func (g *CG) Reach(roots []*Fn, withValueRefs bool) map[*Fn][]string {
 		if r == nil {
 			continue
 		}
+		r = orig(r) // a helper-transparent view is not a node of the graph; its declared function is
 		if _, ok := seen[r]; !ok {
 			seen[r] = []string{r.Name}
 			work = append(work, r)
